@@ -77,6 +77,13 @@ REGISTRY = {
     "C17": {"jobs": [], "native": "native_schema_text.py", "level": "other",
             "explanation": "Exact: L(RFC 4512 ABNF) is contained in the prefix language of each compiled description regex (automata inclusion over the full alphabet), for the three grammars incl. the quoted SYNTAX variant. "
                            "Bounded: field extraction against grammar sentences generated with their denoted values and spacing choices; totality (only ValueError) over short strings and single-character edits."},
+    "C19": {"jobs": [], "static": "frames", "native": "native_c19.py", "level": "other",
+            "explanation": "Frame / ownership obligations (rules F1-F6 of pyvc/frames.py, one per function or class) discharged syntactically on the ASTs: no module-level or class-level mutable state is written, "
+                           "no mutable defaults, session constructors create their state afresh, option objects carry no hidden state, register_* appends to the session's own list after a duplicate test. "
+                           "Non-interference of interleavings then follows from the frame rule (paper argument); the per-method `modifies` frames of the session layer are proved under C08-C12. "
+                           "Bounded: interleavings of scripted sessions and registration scenarios.",
+            "assumptions": ["LDAPResultCode._missing_ inserts pseudo-members into the enum's value map: declared benign (same value, same name)",
+                            "syntactic frame rules are sound for code without reflection (setattr/globals()/exec are checked for only on option objects)"]},
     "C18": {"jobs": [], "native": "native_c18.py", "level": "other",
             "explanation": "Decision procedure per compiled pattern: no exponential ambiguity in the Glushkov automaton built from this interpreter's sre parse tree (exact, full Unicode alphabet); "
                            "refutations are replayed by timing the real pattern under a hard timeout. Hand-written scanners: bounded growth probe on adversarial families (labelled bounded); the decreases "
